@@ -51,13 +51,52 @@ fn tcb_drive(a: &Args) {
     tcbh::install_quiet_panic_hook();
     let seed = a.u64("seed", 1);
     let runs = a.u64("runs", 100);
+    let from = a.u64("from", 0);
     let steps = a.u64("steps", 120) as usize;
     let profile = a.str("profile", "data");
-    let mut out = NdJson::create(&a.str("out", "work/tcb-trace.ndjson"));
-    let mut sched = NdJson::create(&a.str("sched", "work/tcb-sched.ndjson"));
+    let (op, sp) = (a.str("out", "work/tcb-trace.ndjson"), a.str("sched", "work/tcb-sched.ndjson"));
+    let mut out = if from == 0 { NdJson::create(&op) } else { NdJson::append(&op) };
+    let mut sched = if from == 0 { NdJson::create(&sp) } else { NdJson::append(&sp) };
+    // watchdog: a step of the random driver that does not return for HANG_SECS is an endless loop in the code
+    // under test.  The run so far is written with a `panic` event saying so, and the process exits with status 3;
+    // the orchestrator continues with the next run (--from).
+    let hang_secs = a.u64("hang-secs", 180);
+    {
+        let (op, sp, profile) = (op.clone(), sp.clone(), profile.clone());
+        std::thread::spawn(move || loop {
+            std::thread::sleep(std::time::Duration::from_secs(2));
+            let beat = tcbh::BEAT.load(std::sync::atomic::Ordering::Relaxed);
+            if beat == 0 || tcbh::now_secs().saturating_sub(beat) <= hang_secs {
+                continue;
+            }
+            let g = tcbh::LIVE.lock().unwrap_or_else(|e| e.into_inner());
+            if let Some(l) = g.as_ref() {
+                let mut o = NdJson::append(&op);
+                for e in &l.events {
+                    o.put(e);
+                }
+                let last = l.steps.last().cloned().unwrap_or(Value::Null);
+                let mut pe = json!({"ev":"panic","run":l.run,"i":l.events.len(),"p":last["p"].as_str().unwrap_or("A"),
+                              "where":format!("hang: step {} did not return for {} s", last, hang_secs),"loc":"(endless loop)","msg":"hang","args":{}});
+                // the state fields every event carries: those of the last completed step
+                if let Some(prev) = l.events.iter().rev().find(|e| e.get("snapA").is_some()) {
+                    for k in ["snapA", "snapB", "wire", "sent"] {
+                        pe[k] = prev[k].clone();
+                    }
+                }
+                o.put(&pe);
+                o.finish();
+                let mut s = NdJson::append(&sp);
+                s.put(&json!({"run": l.run, "profile": profile, "params": l.params, "steps": l.steps, "hang": true}));
+                s.finish();
+                println!("{}", json!({"hang_run": l.run}));
+            }
+            std::process::exit(3);
+        });
+    }
     let mut cover = std::collections::BTreeSet::new();
     let mut panics = 0;
-    for r in 0..runs {
+    for r in from..runs {
         let s = seed.wrapping_mul(1_000_003).wrapping_add(r);
         let (w, st) = tcbh::drive_random(r, s, &profile, steps);
         for e in &w.events {
@@ -71,7 +110,11 @@ fn tcb_drive(a: &Args) {
             "params": {"mtu": w.prm.mtu, "issA": w.prm.iss[0], "issB": w.prm.iss[1],
                        "listenA": w.prm.listen[0], "listenB": w.prm.listen[1]},
             "steps": st}));
+        // the watchdog appends to the same files: nothing of a finished run may stay buffered
+        out.flush();
+        sched.flush();
     }
+    tcbh::BEAT.store(0, std::sync::atomic::Ordering::Relaxed);
     let lines = out.lines;
     out.finish();
     sched.finish();
